@@ -663,7 +663,7 @@ def actual_provenance(ctx):
                 ctx.check(ok, inst, [site(b, bb)], "an aggregate's `actual` is not 'some dependency reported an actual build/service of this kind': " + why3, props=["C11", "C20"])
 
 
-@rule("C11.KEEPALIVE-GUARD", ["C11", "C20"], """the one-shot relay keeps zinoma alive after completion exactly when a requested root reported an actual service: the service-root set is filled
+@rule("C11.KEEPALIVE-GUARD", ["C11", "C20", "C10"], """the one-shot relay keeps zinoma alive after completion exactly when a requested root reported an actual service: the service-root set is filled
       only under Ok{Service} with `actual`, and the final wait for the termination signal is guarded by that set being non-empty""", "K1", floor=2)
 def keepalive_guard(ctx):
     r = ctx.r
@@ -684,18 +684,18 @@ def keepalive_guard(ctx):
         ctx.need(ins, "insertion into the service-root set")
         set_names = set()
         for bb, t in ins:
-            ctx.check(bb in Rsvc and bb in G, f"{lab}/service-root-insert", [site(rel, bb)], "a root is recorded as a running service without Ok{Service, actual: true}: zinoma would stay alive for a build-only request (or the reverse)")
+            ctx.check(bb in Rsvc and bb in G, f"{lab}/service-root-insert", [site(rel, bb)], "a root is recorded as a running service without Ok{Service, actual: true}: zinoma would stay alive for a build-only request (or the reverse)", props=["C11", "C20"])
             set_names |= {z[1] for z in rel.prov.operand_atoms(t["args"][0], interproc=False) if z[0] == "localname"}
         # final wait: an awaited recv on the termination receiver outside the loop
         loops = rel.natural_loops()
         h, blks, exits = max(loops, key=lambda l: len(l[1]))
         waits = [a for a in awaits(rel) if a.callee and re.search(r"Receiver::<[\w:]*TerminationMessage>::recv$|Receiver<[\w:]*TerminationMessage> as .*StreamExt>::next$", (a.producer[1]["callee"]["declared"] if a.producer else "")) and a.into_bb not in blks]
-        ctx.check(bool(waits), f"{lab}/final-wait", [site(rel, w.into_bb) for w in waits] or [rel.loc()], "the one-shot relay never waits for the termination signal: a requested service is stopped at once")
+        ctx.check(bool(waits), f"{lab}/final-wait", [site(rel, w.into_bb) for w in waits] or [rel.loc()], "the one-shot relay never waits for the termination signal: a requested service is stopped at once", props=["C11", "C20"])
         def nonempty(d):
             return d[0] == "call" and d[1].endswith("::is_empty") and d[2] and {z[1] for z in d[2][0] if z[0] == "localname"} & set_names
         Gne = guard_region(rel, nonempty, False)
         for w in waits:
-            ctx.check(w.producer[0] in Gne, f"{lab}/final-wait-guard", [site(rel, w.into_bb)], "the final wait is not guarded by `!service_roots.is_empty()`: a build-only run would never exit")
+            ctx.check(w.producer[0] in Gne, f"{lab}/final-wait-guard", [site(rel, w.into_bb)], "the final wait is not guarded by `!service_roots.is_empty()`: a build-only run would never exit", props=["C11", "C20"])
             # ... and by nothing that could be false after a successful run: besides the non-empty test only "no termination was received yet" (a flag
             # that is false until the termination arm of the relay's select sets it)
             tarms = arm_by_payload(rel, lambda p: "TerminationMessage" in p)
@@ -715,7 +715,17 @@ def keepalive_guard(ctx):
                 if is_term_flag and pol is False:
                     continue
                 odd.append((e, descs, pol))
-            ctx.check(not odd, f"{lab}/final-wait-reached", [site(rel, w.into_bb)], "after a successful run with a requested service the final wait is skipped unless a further condition holds (" + fmt_conds(odd) + "): zinoma would exit and stop the service")
+            # ... and the wait must not be entered once the termination was already received inside the loop (zinoma would then wait for a *second* signal)
+            blocked = False
+            for (e, descs, pol) in dominating_conditions(rel, w.producer[0]):
+                flags = [x for x in _locals_read(rel, e.label[2]) if rel.locals[x].get("name") and rel.locals[x]["ty"] == "bool"]
+                for fl in flags:
+                    defs = rel.prov.defs.get(fl, ())
+                    if defs and any(kind == "assign" and x["rv"]["k"] == "use" and const_val(x["rv"]["op"]) == "true" and bb in treg for kind, x, bb in defs) and pol is False:
+                        blocked = True
+            ctx.check(blocked or not treg, f"{lab}/final-wait-not-after-termination", [site(rel, w.into_bb)],
+                      "the final wait is also entered when the termination signal was already received in the loop: zinoma then waits for a second signal and the first one is not honoured", props=["C10", "C11"])
+            ctx.check(not odd, f"{lab}/final-wait-reached", [site(rel, w.into_bb)], "after a successful run with a requested service the final wait is skipped unless a further condition holds (" + fmt_conds(odd) + "): zinoma would exit and stop the service", props=["C11", "C20"])
 
 
 @rule("C11.STOP-DOMINATES-SPAWN", ["C11", "C10"], """restarting a service stops the old instance (awaited) before spawning the new one""", "K1", floor=1)
